@@ -106,6 +106,7 @@ def rnd_cmds(rng):
         a = [rnd_float(rng) for _ in range(ar)]
         if c.upper() == 'A': a[3] = rng.randint(0, 1); a[4] = rng.randint(0, 1)
         out.append((c, a))
+        if rng.random() < 0.15: out.append((c, list(a)))       # the same command twice in a row is two commands
     return out
 
 def corr(ctx):
@@ -186,16 +187,21 @@ def judge_strings(ctx, strings):
 
 def judge_roundtrip(cases):
     found = []
-    for p in cases:
-        sp = SVGPath()
-        try:
-            for c, a in p: sp._add_cmd(c, *a)
-            back = [[c, list(a)] for c, a in parse_svg_path(sp.d, exploded=True)]
-        except Exception as ex:
-            found.append({'law': 'serialise then parse returns the same commands', 'input': {'commands': jsonable(p)}, 'expected_by_spec': 'same commands', 'observed': repr(ex)}); continue
+    for k, p in enumerate(cases):
         want = [[c, [float(x) for x in a]] for c, a in p]
-        if back != want:
-            found.append({'law': 'serialise then parse returns the same commands', 'input': {'commands': jsonable(p)}, 'expected_by_spec': jsonable(want), 'observed': jsonable(back)})
+        # both ways the library serialises a command sequence: command by command, and through from_commands / update_path
+        for route in ('_add_cmd', 'from_commands'):
+            if route == 'from_commands' and k % 3: continue
+            try:
+                if route == '_add_cmd':
+                    sp = SVGPath()
+                    for c, a in p: sp._add_cmd(c, *a)
+                else: sp = SVGPath.from_commands((c, tuple(a)) for c, a in p)
+                back = [[c, list(a)] for c, a in parse_svg_path(sp.d, exploded=True)]
+            except Exception as ex:
+                found.append({'law': 'serialise then parse returns the same commands', 'input': {'commands': jsonable(p), 'route': route}, 'expected_by_spec': 'same commands', 'observed': repr(ex)}); continue
+            if back != want:
+                found.append({'law': 'serialise then parse returns the same commands', 'input': {'commands': jsonable(p), 'route': route}, 'expected_by_spec': jsonable(want), 'observed': jsonable(back)})
         if len(found) >= 5: break
     return found
 
